@@ -54,3 +54,21 @@ Qed.
 Lemma fold_left_map' : forall (A B C : Type) (f : A -> B -> A) (g : C -> B) (l : list C) (a : A),
   fold_left f (map g l) a = fold_left (fun a x => f a (g x)) l a.
 Proof. intros A B C f g l. induction l as [|x l IH]; intros a; cbn [map fold_left]; auto. Qed.
+
+Lemma map_nth_seq_ : forall (l : list Z), map (fun i => nth i l 0) (seq 0 (length l)) = l.
+Proof.
+  intros l. apply (nth_ext _ _ 0 0); [now rewrite map_length, seq_length|].
+  intros i Hi. rewrite map_length, seq_length in Hi.
+  rewrite (nth_indep _ 0 (nth 0 l 0)) by (now rewrite map_length, seq_length).
+  rewrite (map_nth (fun i => nth i l 0) (seq 0 (length l)) 0%nat i). now rewrite seq_nth.
+Qed.
+
+(* `for _, x := range xs { g = F g x }` as generated (a fold over the indices) is the fold over the elements *)
+Lemma range_fold : forall (G : Type) (F : G -> Z -> G) (vs : list Z) (g : G),
+  fold_left (fun g (i : Z) => F g (get vs (Z.to_nat i))) (map Z.of_nat (seq 0 (Z.to_nat (Z.of_nat (length vs))))) g
+  = fold_left F vs g.
+Proof.
+  intros G F vs g. rewrite Nat2Z.id, fold_left_map'.
+  rewrite (fold_left_ext_in _ _ _ (fun g i => F g (nth i vs 0))) by (intros a i _; now rewrite Nat2Z.id).
+  rewrite <- (map_nth_seq_ vs) at 2. now rewrite fold_left_map'.
+Qed.
